@@ -118,11 +118,22 @@ static inline size_t famStr(const std::string& s) {
 	}
 }
 
+// functor faults: HashFault = a throwing hash / equality of an indexed item type (armed only around Remove / Extract: the reject path of
+// DataIndexes::RemoveRaw), UserFault = a throwing row filter or a throwing conversion of an item argument of NewRow(assignments...)
+struct HashFault {};
+struct UserFault {};
+static long g_hashFailAfter = -1; static bool g_hashFired = false;
+static inline void hashTick() {
+	++g_hashCalls;
+	if (g_hashFailAfter >= 0) { if (g_hashFailAfter == 0) { g_hashFailAfter = -1; g_hashFired = true; throw HashFault(); } --g_hashFailAfter; }
+}
+
 template<size_t tMaxEq>
 struct WeakTraits : public momo::DataTraits {
 	static const size_t selectEqualityMaxCount = tMaxEq;
-	static void AccumulateHashCode(size_t& hashCode, const int& item, size_t /*offset*/) { ++g_hashCalls; hashCode += famInt(item); }
-	static void AccumulateHashCode(size_t& hashCode, const std::string& item, size_t /*offset*/) { ++g_hashCalls; hashCode += famStr(item); }
+	static void AccumulateHashCode(size_t& hashCode, const int& item, size_t /*offset*/) { hashTick(); hashCode += famInt(item); }
+	static void AccumulateHashCode(size_t& hashCode, const std::string& item, size_t /*offset*/) { hashTick(); hashCode += famStr(item); }
+	template<typename Item> static bool IsEqual(const Item& item1, const Item& item2) { hashTick(); return item1 == item2; }
 };
 
 template<bool tDyn, bool tKeep> struct CL;
@@ -133,7 +144,7 @@ template<bool tKeep> struct CL<true, tKeep> {
 	static const decltype(dynS)& S() { return dynS; }
 	static const decltype(dynD)& D() { return dynD; }
 	static const decltype(dynK)& K() { return dynK; }
-	static List make() { List l; l.Add(dynA); l.Add(dynB); l.Add(dynS); l.Add(dynD); l.Add(dynK); return l; }
+	static List make() { List l; l.Add(dynA); l.Add(dynB); l.Add(dynS); l.Add(dynD.Mutable()); l.Add(dynK); return l; }	// d: mutable column
 	template<typename... Cols> static List makeProj(const Cols&... cols) { List l; int dummy[] = { (l.Add(cols), 0)... }; (void)dummy; return l; }
 };
 template<bool tKeep> struct CL<false, tKeep> {
@@ -143,7 +154,7 @@ template<bool tKeep> struct CL<false, tKeep> {
 	static const decltype(s)& S() { return s; }
 	static const decltype(d)& D() { return d; }
 	static const decltype(k)& K() { return k; }
-	static List make() { return List(); }
+	static List make() { List l; l.SetMutable(d); return l; }	// d: mutable column
 	template<typename... Cols> static List makeProj(const Cols&...) { return List(); }
 };
 
@@ -224,6 +235,43 @@ struct Runner {
 		return row;
 	}
 	std::string valsStr(const RV& x) const { return fmt("%d %d %d %d", x.v[0], x.v[1], x.v[2], x.v[3]); }
+	// the item argument of column s in NewRow / AddRow / InsertRow(assignments...): converted to std::string inside pvFillRaw
+	struct StrArg { int j; bool boom; operator std::string() const { if (boom) throw UserFault(); return strOf(j); } };
+	#define VF_ASSIGNS(x, boom) C::A() = (int)(x).v[0], C::B() = (int)(x).v[1], C::S() = StrArg{ (x).v[2], (boom) }, C::D() = (int)(x).v[3], C::K() = (int)(x).id
+	RV rvOfRow(const Row& r) const { RV x; x.id = r[C::K()]; x.v[0] = r[C::A()]; x.v[1] = r[C::B()]; x.v[2] = strNo(r[C::S()]); x.v[3] = r[C::D()]; return x; }
+	static bool sameRV(const RV& p, const RV& q) { return p.id == q.id && p.v[0] == q.v[0] && p.v[1] == q.v[1] && p.v[2] == q.v[2] && p.v[3] == q.v[3]; }
+	// how a detached row is made: 0 NewRow() + operator[], 1 NewRow(assignments...), 2 NewRow(const Row&) of such a row
+	Row buildRow(const RV& x, int mk) {
+		if (mk == 1) {
+			Row row = tab->NewRow(VF_ASSIGNS(x, false));
+			if (!sameRV(rvOfRow(row), x)) fail(fmt("NewRow(assignments: id %d: %s) holds (%s)", x.id, valsStr(x).c_str(), valsStr(rvOfRow(row)).c_str()));
+			c.stats.count("row.made_by.NewRow(assignments)");
+			return row;
+		}
+		if (mk == 2) {
+			Row row0 = makeRow(x);
+			const Row& cr = row0;
+			Row row = tab->NewRow(cr);
+			if (row.GetRaw() == row0.GetRaw() || !sameRV(rvOfRow(row), x) || !sameRV(rvOfRow(row0), x))
+				fail(fmt("NewRow(const Row&) of (id %d: %s) holds (%s)", x.id, valsStr(x).c_str(), valsStr(rvOfRow(row)).c_str()));
+			c.stats.count("row.made_by.NewRow(const Row&)");
+			return row;
+		}
+		return makeRow(x);
+	}
+	// NewRow(assignments...) interrupted by a throwing item conversion: the exception reaches the caller, the row block goes back to the pool
+	void probeNewRowThrow(const RV& x) {
+		tab->pvDeallocateFreeRaws();
+		size_t blocks = tab->mRawMemPool.GetAllocateCount();	// (the pool may keep an empty buffer: the arena ledger is compared at the end of the history)
+		bool thrown = false;
+		try { Row row = tab->NewRow(VF_ASSIGNS(x, true)); }
+		catch (const UserFault&) { thrown = true; }
+		if (!thrown) fail(fmt("NewRow(assignments: id %d) swallowed the exception thrown by the conversion of an item argument", x.id));
+		if (tab->mRawMemPool.GetAllocateCount() != blocks)
+			fail(fmt("NewRow(assignments: id %d) interrupted by a throwing item conversion keeps its row block (%zu -> %zu blocks of the raw pool)",
+				x.id, blocks, tab->mRawMemPool.GetAllocateCount()));
+		c.stats.evaluations++; c.stats.count("fault.thrown.new_row_item_conversion");
+	}
 
 	// content of the index hash tables, in the form the driver prints
 	struct IdxDump { std::vector<std::vector<int>> u; std::vector<std::vector<std::vector<int>>> m; bool transient = false; };
@@ -455,10 +503,21 @@ struct Runner {
 	void opAdd(bool sweep, bool throwing) {
 		RV x = genRow();
 		uint64_t lastAddr = 0;
+		// 0-2: NewRow() + operator[]; 3: NewRow(assignments...); 4: NewRow(const Row&); 5: TryAddRow / AddRow(assignments...)
+		int mk = (int)rng.below(6);
+		if ((mk == 3 || mk == 5) && rng.chance(1, 3)) probeNewRowThrow(x);
 		auto attempt = [&]() -> Outcome {
 			Outcome o; lastAddr = 0;
 			try {
-				Row row = makeRow(x);
+				if (mk == 5) {
+					if (throwing) {
+						try { auto ref = tab->AddRow(VF_ASSIGNS(x, false)); lastAddr = addrOf(ref.GetRaw()); o.res = "ok"; }
+						catch (const typename Table::UniqueIndexViolation& e) { o.res = resOf(e); }
+					} else { auto r = tab->TryAddRow(VF_ASSIGNS(x, false)); o.res = resOf(r); if (r) lastAddr = addrOf(r.rowReference.GetRaw()); }
+					o.line = fmt("add %d %llu %s", x.id, (unsigned long long)lastAddr, valsStr(x).c_str());
+					return o;
+				}
+				Row row = buildRow(x, mk == 3 ? 1 : mk == 4 ? 2 : 0);
 				lastAddr = addrOf(row.GetRaw());
 				o.line = fmt("add %d %llu %s", x.id, (unsigned long long)lastAddr, valsStr(x).c_str());
 				if (throwing) {
@@ -475,6 +534,7 @@ struct Runner {
 			expectRes("add", res, x.v, -1, valsStr(x));
 			if (res == "ok") sh.push_back(x);
 		});
+		if (mk == 5) c.stats.count(throwing ? "op.add.AddRow(assignments)" : "op.add.TryAddRow(assignments)");
 	}
 	// directed: add a row to a multi-hash group whose value array ends exactly at (or one before) a segment boundary,
 	// with every allocation of the operation failing in turn (pvAdd sorts the completed segment before it can fail)
@@ -506,12 +566,29 @@ struct Runner {
 	void opInsert(bool sweep) {
 		RV x = genRow();
 		size_t n = (size_t)rng.below(sh.size() + 1);
+		int how = (int)rng.below(4);	// 0 TryInsert(n, Row&&), 1 Insert(n, Row&&), 2 TryInsertRow(n, assignments...), 3 InsertRow(n, assignments...)
+		int mk = (int)rng.below(3);
+		if (how >= 2 && rng.chance(1, 3)) probeNewRowThrow(x);
 		auto attempt = [&]() -> Outcome {
 			Outcome o;
 			try {
-				Row row = makeRow(x);
+				if (how >= 2) {
+					uint64_t addr = 0;
+					if (how == 3) {
+						try { auto ref = tab->InsertRow(n, VF_ASSIGNS(x, false)); addr = addrOf(ref.GetRaw()); o.res = "ok"; }
+						catch (const typename Table::UniqueIndexViolation& e) { o.res = resOf(e); }
+					} else { auto r = tab->TryInsertRow(n, VF_ASSIGNS(x, false)); o.res = resOf(r); if (r) addr = addrOf(r.rowReference.GetRaw()); }
+					o.line = fmt("ins %zu %d %llu %s", n, x.id, (unsigned long long)addr, valsStr(x).c_str());
+					return o;
+				}
+				Row row = buildRow(x, mk);
 				o.line = fmt("ins %zu %d %llu %s", n, x.id, (unsigned long long)addrOf(row.GetRaw()), valsStr(x).c_str());
-				o.res = resOf(tab->TryInsert(n, std::move(row)));
+				if (how == 1) {
+					try {
+						auto ref = tab->Insert(n, std::move(row)); o.res = "ok";
+						if ((int)ref[C::K()] != x.id) fail(fmt("Insert(%zu, row id %d) returned a reference to row id %d", n, x.id, (int)ref[C::K()]));
+					} catch (const typename Table::UniqueIndexViolation& e) { o.res = resOf(e); }
+				} else o.res = resOf(tab->TryInsert(n, std::move(row)));
 			} catch (const std::bad_alloc&) {
 				if (o.line.empty()) o.line = fmt("ins %zu %d 0 %s", n, x.id, valsStr(x).c_str());
 				o.res = "E:bad_alloc";
@@ -522,18 +599,27 @@ struct Runner {
 			expectRes("insert", res, x.v, -1, valsStr(x));
 			if (res == "ok") sh.insert(sh.begin() + (ptrdiff_t)n, x);
 		});
+		static const char* names[4] = { "op.insert.TryInsert", "op.insert.Insert(throwing)", "op.insert.TryInsertRow(assignments)", "op.insert.InsertRow(assignments)" };
+		c.stats.count(names[how]);
 	}
 	void opUpdRow(bool sweep) {
 		if (sh.empty()) return;
 		size_t n = (size_t)rng.below(sh.size());
 		RV x = genRow();
 		if (rng.chance(1, 3)) { x.v[0] = sh[n].v[0]; x.v[1] = sh[n].v[1]; }	// same unique key as the row replaced
+		bool throwing = rng.chance(1, 2);	// Update(rowNumber, Row&&) instead of TryUpdate
+		int mk = (int)rng.below(3);
 		auto attempt = [&]() -> Outcome {
 			Outcome o;
 			try {
-				Row row = makeRow(x);
+				Row row = buildRow(x, mk);
 				o.line = fmt("updrow %zu %d %llu %s", n, x.id, (unsigned long long)addrOf(row.GetRaw()), valsStr(x).c_str());
-				o.res = resOf(tab->TryUpdate(n, std::move(row)));
+				if (throwing) {
+					try {
+						auto ref = tab->Update(n, std::move(row)); o.res = "ok";
+						if ((int)ref[C::K()] != x.id) fail(fmt("Update(%zu, row id %d) returned a reference to row id %d", n, x.id, (int)ref[C::K()]));
+					} catch (const typename Table::UniqueIndexViolation& e) { o.res = resOf(e); }
+				} else o.res = resOf(tab->TryUpdate(n, std::move(row)));
 			} catch (const std::bad_alloc&) {
 				if (o.line.empty()) o.line = fmt("updrow %zu %d 0 %s", n, x.id, valsStr(x).c_str());
 				o.res = "E:bad_alloc";
@@ -544,6 +630,22 @@ struct Runner {
 			expectRes("update(row)", res, x.v, (long)n, fmt("row %zu <- %s", n, valsStr(x).c_str()));
 			if (res == "ok") sh[n] = x;
 		});
+		c.stats.count(throwing ? "op.update_row.Update(throwing)" : "op.update_row.TryUpdate");
+	}
+	// one single-column update through the overload number `how`; answers like resOf
+	template<typename Col, typename Item>
+	std::string updItem(CRef ref, const Col& col, Item item, int how, size_t n) {
+		const Item& citem = item;
+		switch (how) {
+		case 0: return resOf(tab->TryUpdate(ref, col, std::move(item)));
+		case 1: return resOf(tab->TryUpdate(ref, col, citem));
+		default:
+			try {
+				auto r = (how == 2) ? tab->Update(ref, col, std::move(item)) : tab->Update(ref, col, citem);
+				if (r.GetRaw() != (*tab)[n].GetRaw()) fail(fmt("Update(row %zu, column, item) returned a reference to another row", n));
+				return "ok";
+			} catch (const typename Table::UniqueIndexViolation& e) { return resOf(e); }
+		}
 	}
 	// single-column update; returns true when finding F9 struck and the table was rebuilt
 	void opUpdCol(bool sweep) {
@@ -553,20 +655,23 @@ struct Runner {
 		RV x = sh[n];
 		RV g = genRow(); --nextId;
 		x.v[col] = rng.chance(1, 8) ? sh[n].v[col] : g.v[col];
+		int how = (int)rng.below(4);	// the four single-column overloads: TryUpdate / Update x Item&& / const Item&
 		auto attempt = [&]() -> Outcome {
 			Outcome o;
 			o.line = fmt("updcol %zu %d %d", n, col, x.v[col]);
 			try {
 				CRef ref = (*tab)[n];
 				switch (col) {
-				case 0: o.res = resOf(tab->TryUpdate(ref, C::A(), (int)x.v[0])); break;
-				case 1: o.res = resOf(tab->TryUpdate(ref, C::B(), (int)x.v[1])); break;
-				case 2: { std::string str = strOf(x.v[2]); o.res = resOf(tab->TryUpdate(ref, C::S(), static_cast<const std::string&>(str))); break; }
-				default: o.res = resOf(tab->TryUpdate(ref, C::D(), (int)x.v[3])); break;
+				case 0: o.res = updItem(ref, C::A(), (int)x.v[0], how, n); break;
+				case 1: o.res = updItem(ref, C::B(), (int)x.v[1], how, n); break;
+				case 2: o.res = updItem(ref, C::S(), strOf(x.v[2]), how, n); break;
+				default: o.res = updItem(ref, C::D(), (int)x.v[3], how, n); break;
 				}
 			} catch (const std::bad_alloc&) { o.res = "E:bad_alloc"; }
 			return o;
 		};
+		static const char* names[4] = { "op.update_column.TryUpdate(Item&&)", "op.update_column.TryUpdate(const Item&)", "op.update_column.Update(Item&&)", "op.update_column.Update(const Item&)" };
+		c.stats.count(names[how]);
 		bool done = false;
 		fallible("update_column", sweep, attempt, [&](const std::string& res) {
 			expectRes("update(column)", res, x.v, (long)n, fmt("row %zu column %d <- %d", n, col, x.v[col]));
@@ -603,7 +708,38 @@ struct Runner {
 	}
 
 	// copy construction (also the resynchronisation after F9): `pred` selects the rows copied
-	void rebuild(const std::string& predStr, const Pred* pred = nullptr) {
+	// every allocation of the copy failing in turn (small tables; 8 random ones otherwise): the constructor must throw bad_alloc and
+	// leave nothing allocated (the catch of pvFill gives the imported raw back), the source stays as it was
+	void copyFaults(const Pred* pred, int via) {
+		Arena& ar = arena();
+		auto* self = this;
+		auto make = [&]() {
+			if (via == 1) { Table t(*lastSel); (void)t.GetCount(); }
+			else if (via == 2) { typename Table::ConstSelection cs = *lastSel; Table t(cs); (void)t.GetCount(); }
+			else if (pred) { Pred p = *pred; Table t(*tab, [p, self](CRef r) { return p(self->rvOf(r)); }); (void)t.GetCount(); }
+			else { Table t(*tab); (void)t.GetCount(); }
+		};
+		tab->pvDeallocateFreeRaws();
+		size_t a0 = ar.allocs, live = ar.live.size();
+		make();
+		size_t total = ar.allocs - a0;
+		if (ar.live.size() != live) { fail("a table copy that was destroyed again left blocks allocated"); return; }
+		size_t tries = (!heavy && sh.size() <= 80) ? total : std::min<size_t>(total, 8);
+		for (size_t i = 0; i < tries; ++i) {
+			long k = (tries == total) ? (long)i : (long)rng.below(total);
+			ar.arm(k); bool bad = false;
+			try { make(); } catch (const std::bad_alloc&) { bad = true; }
+			ar.disarm();
+			c.stats.evaluations++;
+			if (!bad) { c.stats.count(ar.fired ? "fault.swallowed.copy" : "fault.not_reached.copy"); continue; }
+			c.stats.count("fault.thrown.copy");
+			if (ar.live.size() != live) { fail(fmt("a table copy (%s) interrupted by the failure of its allocation #%ld left %zu blocks allocated (%zu before)", via ? "from a selection" : "copy constructor", k, ar.live.size(), live)); ar.live.clear(); return; }
+		}
+		c.stats.nontrivial(fmt("%s/copyfault/%d/%zu", tag.c_str(), via, std::min<size_t>(total, 64) / 8));
+		IdxDump d = dumpIdx(); checkState(d);
+	}
+	void rebuild(const std::string& predStr, const Pred* pred = nullptr, bool faults = false) {
+		if (faults) copyFaults(pred, 0);	// not in the resynchronisation after F9: the indexes of the source are inconsistent there
 		Table* t2;
 		if (pred) { Pred p = *pred; auto* self = this; t2 = new Table(*tab, [p, self](CRef r) { return p(self->rvOf(r)); }); }
 		else t2 = new Table(*tab);
@@ -639,25 +775,58 @@ struct Runner {
 		bool keepOrder = kind % 2 == 0;
 		int id = sh[n].id;
 		if (!mDefs.empty() && (!heavy || rng.chance(1, 3))) removalStats(id);
-		++opNo; c.stats.evaluations++;
 		Arena& ar = arena();
+		auto perform = [&](bool& ko) {	// ko: the order of the remaining rows is kept
+			switch (kind) {
+			case 0: case 1: tab->Remove(n, keepOrder); break;
+			case 2: tab->Remove((*tab)[n]); ko = true; break;
+			case 3: case 4: { Row r = tab->Extract(n, keepOrder); g_hashFailAfter = -1; ar.disarm(); keepRow(std::move(r), id); break; }
+			default: { Row r = tab->Extract((*tab)[n]); g_hashFailAfter = -1; ar.disarm(); ko = true; keepRow(std::move(r), id); break; }
+			}
+		};
+		// a throwing hash / equality of an indexed item type: every tick of DataTraits::AccumulateHashCode / IsEqual inside the removal fails
+		// in turn (the first 12, then 2 random later ones); the removal must throw and leave rows and indexes as they were (no pending position)
+		if ((!uDefs.empty() || !mDefs.empty()) && rng.chance(1, heavy ? 6 : 2)) {
+			for (int att = 0; att < 14; ++att) {
+				long k = att < 12 ? att : 12 + (long)rng.below(200);
+				bool ko = keepOrder;
+				g_hashFailAfter = k; g_hashFired = false;
+				try { perform(ko); }
+				catch (const HashFault&) {
+					g_hashFailAfter = -1;
+					++opNo; c.stats.evaluations++;
+					c.stats.count("fault.thrown.remove_hash");
+					c.stats.nontrivial(fmt("%s/hashfault/remove/%d/%ld", tag.c_str(), kind, std::min<long>(k, 12)));
+					emitChk(false);	// rows, row numbers, index contents, no pending add / remove position: against the shadow list and the model
+					continue;
+				}
+				g_hashFailAfter = -1;
+				if (g_hashFired) fail(fmt("removal of row %zu (id %d) swallowed the exception of a throwing hash function", n, id));
+				finishRemove(kind, n, id, ko, false);	// went through without reaching tick k
+				return;
+			}
+		}
 		bool armed = rng.chance(1, 3);
 		if (armed) ar.arm((long)rng.below(3));
-		try {
-			switch (kind) {
-			case 0: case 1: su.op(fmt("rem %zu %d", n, keepOrder ? 1 : 0)); tab->Remove(n, keepOrder); c.stats.count("op.remove.number"); break;
-			case 2: su.op(fmt("remref %d", id)); tab->Remove((*tab)[n]); keepOrder = true; c.stats.count("op.remove.reference"); break;
-			case 3: case 4: { su.op(fmt("rem %zu %d", n, keepOrder ? 1 : 0)); Row r = tab->Extract(n, keepOrder); ar.disarm(); keepRow(std::move(r), id); c.stats.count("op.extract.number"); break; }
-			default: { su.op(fmt("remref %d", id)); Row r = tab->Extract((*tab)[n]); ar.disarm(); keepOrder = true; keepRow(std::move(r), id); c.stats.count("op.extract.reference"); break; }
-			}
-		} catch (const std::bad_alloc&) {
+		bool ko = keepOrder;
+		try { perform(ko); }
+		catch (const std::bad_alloc&) {
 			ar.disarm();
 			// the property: a removal interrupted by an allocation failure leaves the table unchanged (the model has no such path)
+			++opNo; c.stats.evaluations++;
+			su.op(kind == 2 || kind == 5 ? fmt("remref %d", id) : fmt("rem %zu %d", n, keepOrder ? 1 : 0));
 			su.res("E:bad_alloc"); c.stats.count("fault.thrown.remove");
 			return;
 		}
 		ar.disarm();
-		if (armed && ar.fired) c.stats.count("fault.swallowed.remove");
+		finishRemove(kind, n, id, ko, armed && ar.fired);
+	}
+	void finishRemove(int kind, size_t n, int id, bool keepOrder, bool swallowed) {
+		static const char* names[6] = { "op.remove.number", "op.remove.number", "op.remove.reference", "op.extract.number", "op.extract.number", "op.extract.reference" };
+		++opNo; c.stats.evaluations++;
+		su.op(kind == 2 || kind == 5 ? fmt("remref %d", id) : fmt("rem %zu %d", n, keepOrder ? 1 : 0));
+		c.stats.count(names[kind]);
+		if (swallowed) c.stats.count("fault.swallowed.remove");
 		su.res(fmt("ok %d", id));
 		if (keepOrder) sh.erase(sh.begin() + (ptrdiff_t)n);
 		else { sh[n] = sh.back(); sh.pop_back(); }
@@ -709,15 +878,56 @@ struct Runner {
 	void opRemovePred() {
 		Pred p = genPred();
 		if (p.kind == 0 && !rng.chance(1, 10)) p.kind = 4, p.x = 7, p.y = 3;
+		auto* self = this;
+		// a row filter that throws at its j-th call (after rows were already marked for removal when row numbers are kept), and
+		// the allocations of the raw set (no row numbers) failing in turn: Remove(filter) must throw and leave the table as it was
+		if (!sh.empty() && rng.chance(1, 2)) {
+			size_t at = (size_t)rng.below(sh.size()), calls = 0; bool thrown = false;
+			try { tab->Remove([p, self, at, &calls](CRef r) { if (calls++ == at) throw UserFault(); return p(self->rvOf(r)); }); }
+			catch (const UserFault&) { thrown = true; }
+			if (!thrown) fail(fmt("Remove(%s) swallowed the exception thrown by the %zu-th call of the row filter", p.str().c_str(), at));
+			++opNo; c.stats.evaluations++; c.stats.count("fault.thrown.remove_filter_user");
+			c.stats.nontrivial(fmt("%s/filterfault/%d/%zu", tag.c_str(), p.kind, std::min<size_t>(at, 8)));
+			emitChk(false);
+			for (long k = 0; k < 3; ++k) {
+				Arena& ar = arena();
+				ar.arm(k); bool bad = false; size_t before = tab->GetCount();
+				try { tab->Remove([p, self](CRef r) { return p(self->rvOf(r)); }); }
+				catch (const std::bad_alloc&) { bad = true; }
+				ar.disarm();
+				if (!bad) {	// went through: this was the operation
+					size_t removed = before - tab->GetCount();
+					finishRemovePred(p, removed);
+					if (ar.fired) c.stats.count("fault.swallowed.remove_filter");
+					return;
+				}
+				++opNo; c.stats.evaluations++; c.stats.count("fault.thrown.remove_filter_alloc");
+				emitChk(false);
+			}
+		}
+		size_t removed = tab->Remove([p, self](CRef r) { return p(self->rvOf(r)); });
+		finishRemovePred(p, removed);
+	}
+	void finishRemovePred(const Pred& p, size_t removed) {
 		++opNo; c.stats.evaluations++;
 		su.op("rempred " + p.str());
-		auto* self = this;
-		size_t removed = tab->Remove([p, self](CRef r) { return p(self->rvOf(r)); });
 		std::vector<RV> s2; for (auto& r : sh) if (!p(r)) s2.push_back(r);
 		if (removed != sh.size() - s2.size()) fail(fmt("Remove(%s) reported %zu rows, a scan finds %zu", p.str().c_str(), removed, sh.size() - s2.size()));
 		sh = s2;
 		su.res(fmt("ok %zu", removed));
 		c.stats.count("op.remove.predicate");
+	}
+	// write through a mutable column (column d, never indexed): RowReference::GetMutable of operator[] / MakeMutableReference
+	void opSetMutable() {
+		if (sh.empty()) return;
+		size_t n = (size_t)rng.below(sh.size());
+		int v = (int)rng.below(4);
+		if (rng.chance(1, 2)) { auto ref = (*tab)[n]; ref.GetMutable(C::D()) = v; }
+		else { const Table& ct = *tab; CRef cref = ct[n]; tab->MakeMutableReference(cref).GetMutable(C::D()) = v; }
+		sh[n].v[3] = v;
+		++opNo; c.stats.evaluations++;
+		su.op(fmt("updcol %zu 3 %d", n, v)); su.res("ok");	// for the model: an update of a column that no index uses
+		c.stats.count("op.write_mutable_column");
 	}
 	void opAssign() {
 		if (sh.empty()) return;
@@ -815,6 +1025,9 @@ struct Runner {
 	template<typename RowsT> std::vector<int> idsOf(const RowsT& rows) { std::vector<int> ids; for (auto r : rows) ids.push_back((int)r[C::K()]); return ids; }
 	static std::string listSum(const std::vector<int>& ids) { uint64_t h = 0; for (int x : ids) h = ck(h, (uint64_t)x); return fmt("n=%zu h=%llu", ids.size(), (unsigned long long)h); }
 
+	typedef typename Table::ConstSelection ConstSelection;
+	typedef typename Table::EmptyRowFilter NoFilter;
+	template<typename F> void dispatchVar(const Eqs& e, F&& f);	// Equality<Item>... spelling, defined below
 	void querySelect() {
 		Eqs e = rng.chance(1, 8) ? Eqs() : genEqs(rng.chance(3, 4));
 		Pred p; if (rng.chance(1, 3)) p = genPred();
@@ -822,32 +1035,104 @@ struct Runner {
 		auto filter = [p, self](CRef r) { return p(self->rvOf(r)); };
 		std::vector<int> want = scan(e, p);
 		bool count = rng.chance(1, 3);
+		// the spelling of the call: Equalities<...> (column == item && ...) or Equality<Item>..., through the table or a const reference to it
+		bool variadic = rng.chance(1, 2), viaConst = rng.chance(1, 2);
+		const Table& ct = *tab;
 		++opNo; c.stats.evaluations++;
 		if (count) {
 			size_t got = 0;
 			if (e.empty()) got = (p.kind == 0) ? tab->SelectCount() : tab->SelectCount(filter);
+			else if (variadic) dispatchVar(e, [&](auto... mk) { got = (p.kind == 0) ? ct.SelectCount(NoFilter(), mk()...) : ct.SelectCount(filter, mk()...); });
 			else dispatchEqs(e, [&](auto mk) { got = (p.kind == 0) ? tab->SelectCount(mk()) : tab->SelectCount(mk(), filter); });
 			su.op(fmt("cnt %s | %s", eqsStr(e).c_str(), p.str().c_str())); su.res(fmt("%zu", got));
 			if (got != want.size()) fail(fmt("SelectCount(%s | %s) = %zu, a brute-force scan finds %zu", eqsStr(e).c_str(), p.str().c_str(), got, want.size()));
-			c.stats.count("query.select_count");
+			c.stats.count(variadic && !e.empty() ? "query.select_count.variadic" : "query.select_count");
 		} else {
-			if (e.empty()) { if (p.kind == 0) lastSel.reset(new Selection(tab->Select())); else lastSel.reset(new Selection(tab->Select(filter))); }
-			else dispatchEqs(e, [&](auto mk) { if (p.kind == 0) lastSel.reset(new Selection(tab->Select(mk()))); else lastSel.reset(new Selection(tab->Select(mk(), filter))); });
-			haveSel = true;
-			std::vector<int> got = idsOf(*lastSel);
+			std::vector<int> got;
+			if (viaConst) {	// ConstSelection
+				std::unique_ptr<ConstSelection> cs;
+				if (e.empty()) { if (p.kind == 0) cs.reset(new ConstSelection(ct.Select())); else cs.reset(new ConstSelection(ct.Select(filter))); }
+				else if (variadic) dispatchVar(e, [&](auto... mk) { if (p.kind == 0) cs.reset(new ConstSelection(ct.Select(NoFilter(), mk()...))); else cs.reset(new ConstSelection(ct.Select(filter, mk()...))); });
+				else dispatchEqs(e, [&](auto mk) { if (p.kind == 0) cs.reset(new ConstSelection(ct.Select(mk()))); else cs.reset(new ConstSelection(ct.Select(mk(), filter))); });
+				got = idsOf(*cs);
+				if (cs->GetCount() != got.size()) fail("ConstSelection: GetCount differs from the number of rows iterated");
+				haveSel = false; lastSel.reset();
+			} else {
+				if (e.empty()) { if (p.kind == 0) lastSel.reset(new Selection(tab->Select())); else lastSel.reset(new Selection(tab->Select(filter))); }
+				else if (variadic) dispatchVar(e, [&](auto... mk) { if (p.kind == 0) lastSel.reset(new Selection(tab->Select(NoFilter(), mk()...))); else lastSel.reset(new Selection(tab->Select(filter, mk()...))); });
+				else dispatchEqs(e, [&](auto mk) { if (p.kind == 0) lastSel.reset(new Selection(tab->Select(mk()))); else lastSel.reset(new Selection(tab->Select(mk(), filter))); });
+				haveSel = true;
+				got = idsOf(*lastSel);
+			}
 			su.op(fmt("sel %s | %s", eqsStr(e).c_str(), p.str().c_str())); su.res(listSum(got));
 			std::vector<int> g2 = got; std::sort(g2.begin(), g2.end()); std::sort(want.begin(), want.end());
 			if (g2 != want) fail(fmt("Select(%s | %s) returns %zu rows, a brute-force scan finds %zu (or other rows)", eqsStr(e).c_str(), p.str().c_str(), got.size(), want.size()));
-			c.stats.count("query.select");
+			c.stats.count(fmt("query.select%s%s", viaConst ? ".const" : "", variadic && !e.empty() ? ".variadic" : ""));
 		}
 		c.stats.count(want.empty() ? "query.result.empty" : want.size() > 192 ? "query.result.gt192" : want.size() > 64 ? "query.result.gt64" : "query.result.small");
 		c.stats.nontrivial(fmt("%s/q/%s/%d/%zu", tag.c_str(), eqsStr(e).c_str(), p.kind, want.size()));
 	}
+	template<typename F> void dispatchVarIdx(const Eqs& e, F&& f);	// Equality<Item>... spelling for the column sets of the indexes and (d)
+	int uPosOf(int k) const { for (size_t i = 0; i < uDefs.size(); ++i) if (uDefs[i] == k) return (int)i; return -1; }
+	int mPosOf(int k) const { for (size_t i = 0; i < mDefs.size(); ++i) if (mDefs[i] == k) return (int)i; return -1; }
+	// GetUniqueHashIndex / GetMultiHashIndex(columns...) against the list of indexes the harness created; lookups by a column set
+	// that has no index: std::logic_error
+	void queryIndexOf() {
+		const Table& ct = *tab;
+		++opNo; c.stats.evaluations++;
+		ptrdiff_t u0 = (ptrdiff_t)ct.GetUniqueHashIndex(C::A(), C::B()), u1 = (ptrdiff_t)ct.GetUniqueHashIndex(C::B(), C::A()), u2 = (ptrdiff_t)ct.GetUniqueHashIndex(C::A());
+		ptrdiff_t m1 = (ptrdiff_t)ct.GetMultiHashIndex(C::A()), m2 = (ptrdiff_t)ct.GetMultiHashIndex(C::B()), m3 = (ptrdiff_t)ct.GetMultiHashIndex(C::A(), C::S()), m4 = (ptrdiff_t)ct.GetMultiHashIndex(C::D());
+		if (u0 != uPosOf(0) || u1 != uPosOf(0) || u2 != -1 || m1 != mPosOf(1) || m2 != mPosOf(2) || m3 != mPosOf(3) || m4 != -1)
+			fail(fmt("GetUniqueHashIndex / GetMultiHashIndex(columns) = u(a,b) %td u(b,a) %td u(a) %td m(a) %td m(b) %td m(a,s) %td m(d) %td, the indexes created are u(a,b) %d m(a) %d m(b) %d m(s,a) %d",
+				u0, u1, u2, m1, m2, m3, m4, uPosOf(0), mPosOf(1), mPosOf(2), mPosOf(3)));
+		c.stats.count("query.index_of_columns");
+		{	// the operator== / operator&& spelling of an equality list
+			const RV* src = (!sh.empty() && rng.chance(3, 4)) ? &sh[rng.below(sh.size())] : nullptr;
+			int va = src ? src->v[0] : (int)rng.below((uint64_t)aRange + 2), vb = src ? src->v[1] : (int)rng.below((uint64_t)bRange + 5);
+			std::string vs = strOf(src && rng.chance(2, 3) ? src->v[2] : (int)rng.below(7));
+			bool three = rng.chance(1, 2);
+			size_t got = three ? ct.SelectCount((C::A() == va) && (C::B() == vb) && (C::S() == vs)) : ct.SelectCount((C::B() == vb) && (C::A() == va));
+			Eqs e2 = three ? Eqs{ { 0, va }, { 1, vb }, { 2, strNo(vs) } } : Eqs{ { 1, vb }, { 0, va } };
+			++opNo; c.stats.evaluations++;
+			su.op(fmt("cnt %s | T", eqsStr(e2).c_str())); su.res(fmt("%zu", got));
+			size_t want = scan(e2, Pred()).size();
+			if (got != want) fail(fmt("SelectCount(%s, written with == and &&) = %zu, a brute-force scan finds %zu", eqsStr(e2).c_str(), got, want));
+			c.stats.count("query.select_count.operator_and");
+		}
+		// a lookup without an index over exactly these columns
+		static const int combos[7][2] = { {0,1}, {1,0}, {0,-1}, {1,-1}, {2,0}, {0,2}, {3,-1} };
+		const int* cb = combos[rng.below(7)];
+		Eqs e; for (int i = 0; i < 2 && cb[i] >= 0; ++i) e.push_back({ cb[i], (int)rng.below(4) });
+		std::vector<int> cols; for (auto& q : e) cols.push_back(q.first); std::sort(cols.begin(), cols.end());
+		bool unique = rng.chance(1, 2), variadic = rng.chance(1, 2);
+		bool have = false;
+		for (int k : (unique ? uDefs : mDefs)) { std::vector<int> kc = kIdx[k].cols; std::sort(kc.begin(), kc.end()); if (kc == cols) have = true; }
+		if (have) return;
+		std::string got = "returned";
+		try {
+			if (unique) {
+				if (variadic) dispatchVarIdx(e, [&](auto... mk) { (void)ct.FindByUniqueHash(momo::DataUniqueHashIndex::empty, mk()...); });
+				else dispatchEqs(e, [&](auto mk) { (void)ct.FindByUniqueHash(mk()); });
+			} else {
+				if (variadic) dispatchVarIdx(e, [&](auto... mk) { (void)ct.FindByMultiHash(momo::DataMultiHashIndex::empty, mk()...); });
+				else dispatchEqs(e, [&](auto mk) { (void)ct.FindByMultiHash(mk()); });
+			}
+		} catch (const std::logic_error&) { got = "E:logic"; }
+		++opNo; c.stats.evaluations++;
+		su.op(fmt("%s - %s", unique ? "fu" : "fm", eqsStr(e).c_str())); su.res(got);
+		if (got != "E:logic") fail(fmt("FindBy%sHash(%s) without an index over these columns did not throw std::logic_error", unique ? "Unique" : "Multi", eqsStr(e).c_str()));
+		c.stats.count("query.find.index_not_found");
+	}
 	void queryFind() {
 		if (uDefs.empty() && mDefs.empty()) return;
 		size_t which = (size_t)rng.below(uDefs.size() + mDefs.size());
+		if (!uDefs.empty() && rng.chance(1, 3)) which = (size_t)rng.below(uDefs.size());
 		bool present = rng.chance(2, 3);
 		bool explicitIdx = rng.chance(1, 2);
+		// 0 Equalities<...>, 1 the same through a const table, 2 (index, Equality<Item>...), 3 the same through a const table,
+		// 4 / 5 (unique only) FindByUniqueHash(index, const Row&) through the table / a const table
+		int form = (int)rng.below(which < uDefs.size() ? 6 : 4);
+		const Table& ct = *tab;
 		++opNo; c.stats.evaluations++;
 		if (which < uDefs.size()) {
 			const auto& cols = kIdx[uDefs[which]].cols;
@@ -855,15 +1140,27 @@ struct Runner {
 			for (int cc : cols) e.push_back({ cc, src ? src->v[cc] : (int)rng.below((uint64_t)bRange + 5) });
 			if (rng.chance(1, 2)) std::reverse(e.begin(), e.end());
 			std::string got = "none";
-			dispatchEqs(e, [&](auto mk) {
-				auto ptr = tab->FindByUniqueHash(mk(), explicitIdx ? (momo::DataUniqueHashIndex)(ptrdiff_t)which : momo::DataUniqueHashIndex::empty);
-				if (!!ptr) got = fmt("%d", (int)(*ptr)[C::K()]);
-			});
+			auto uix = explicitIdx ? (momo::DataUniqueHashIndex)(ptrdiff_t)which : momo::DataUniqueHashIndex::empty;
+			if (form >= 4) {
+				explicitIdx = true; uix = (momo::DataUniqueHashIndex)(ptrdiff_t)which;
+				RV x = genRow0(); --nextId; x.id = 0;	// a detached row: the index columns as asked, anything in the others
+				for (auto& q : e) x.v[q.first] = q.second;
+				Row row = buildRow(x, (int)rng.below(3));
+				const Row& crow = row;
+				if (form == 4) { auto ptr = tab->FindByUniqueHash(uix, crow); if (!!ptr) { got = fmt("%d", (int)(*ptr)[C::K()]); if (ptr.GetCount() != 1 || (int)ptr->Get(C::K()) != (int)(*ptr)[C::K()]) fail("FindByUniqueHash(index, row): the row pointer is inconsistent"); } }
+				else { auto ptr = ct.FindByUniqueHash(uix, crow); if (!!ptr) got = fmt("%d", (int)(*ptr)[C::K()]); if (static_cast<bool>(ptr) != (got != "none") || ptr.GetCount() > 1) fail("FindByUniqueHash(index, row) const: the row pointer is inconsistent"); }
+				if (!sameRV(rvOfRow(row), x)) fail("FindByUniqueHash(index, row) changed the row it was given");
+			}
+			else if (form == 0) dispatchEqs(e, [&](auto mk) { auto ptr = tab->FindByUniqueHash(mk(), uix); if (!!ptr) got = fmt("%d", (int)(*ptr)[C::K()]); });
+			else if (form == 1) dispatchEqs(e, [&](auto mk) { auto ptr = ct.FindByUniqueHash(mk(), uix); if (!!ptr) got = fmt("%d", (int)(*ptr)[C::K()]); });
+			else if (form == 2) dispatchVarIdx(e, [&](auto... mk) { auto ptr = tab->FindByUniqueHash(uix, mk()...); if (!!ptr) got = fmt("%d", (int)(*ptr)[C::K()]); });
+			else dispatchVarIdx(e, [&](auto... mk) { auto ptr = ct.FindByUniqueHash(uix, mk()...); if (!!ptr) got = fmt("%d", (int)(*ptr)[C::K()]); });
 			su.op(fmt("fu %s %s", explicitIdx ? fmt("%zu", which).c_str() : "-", eqsStr(e).c_str())); su.res(got);
 			std::vector<int> want = scan(e, Pred());
 			std::string w = want.empty() ? "none" : fmt("%d", want[0]);
-			if (want.size() > 1 || got != w) fail(fmt("FindByUniqueHash(%s) = %s, a brute-force scan gives %s (%zu rows)", eqsStr(e).c_str(), got.c_str(), w.c_str(), want.size()));
+			if (want.size() > 1 || got != w) fail(fmt("FindByUniqueHash(%s; call form %d) = %s, a brute-force scan gives %s (%zu rows)", eqsStr(e).c_str(), form, got.c_str(), w.c_str(), want.size()));
 			c.stats.count(want.empty() ? "query.find_unique.absent" : "query.find_unique.present");
+			c.stats.count(fmt("query.find_unique.form%d", form));
 		} else {
 			size_t mi = which - uDefs.size();
 			const auto& cols = kIdx[mDefs[mi]].cols;
@@ -871,22 +1168,29 @@ struct Runner {
 			for (int cc : cols) e.push_back({ cc, src ? src->v[cc] : (int)rng.below((uint64_t)bRange + 5) + bRange });
 			if (rng.chance(1, 2)) std::reverse(e.begin(), e.end());
 			std::vector<int> got;
-			dispatchEqs(e, [&](auto mk) {
-				auto bounds = tab->FindByMultiHash(mk(), explicitIdx ? (momo::DataMultiHashIndex)(ptrdiff_t)mi : momo::DataMultiHashIndex::empty);
-				got = idsOf(bounds);
-				if (bounds.GetCount() != got.size()) fail("FindByMultiHash: GetCount differs from the number of rows iterated");
-			});
+			auto mix = explicitIdx ? (momo::DataMultiHashIndex)(ptrdiff_t)mi : momo::DataMultiHashIndex::empty;
+			auto take = [&](auto bounds) { got = idsOf(bounds); if (bounds.GetCount() != got.size()) fail("FindByMultiHash: GetCount differs from the number of rows iterated"); };
+			if (form == 0) dispatchEqs(e, [&](auto mk) { take(tab->FindByMultiHash(mk(), mix)); });
+			else if (form == 1) dispatchEqs(e, [&](auto mk) { take(ct.FindByMultiHash(mk(), mix)); });
+			else if (form == 2) dispatchVarIdx(e, [&](auto... mk) { take(tab->FindByMultiHash(mix, mk()...)); });
+			else dispatchVarIdx(e, [&](auto... mk) { take(ct.FindByMultiHash(mix, mk()...)); });
 			su.op(fmt("fm %s %s", explicitIdx ? fmt("%zu", mi).c_str() : "-", eqsStr(e).c_str())); su.res(listSum(got));
 			std::vector<int> want = scan(e, Pred());
 			std::vector<int> g2 = got; std::sort(g2.begin(), g2.end()); std::sort(want.begin(), want.end());
-			if (g2 != want) fail(fmt("FindByMultiHash(%s) returns %zu rows, a brute-force scan finds %zu (or other rows)", eqsStr(e).c_str(), got.size(), want.size()));
+			if (g2 != want) fail(fmt("FindByMultiHash(%s; call form %d) returns %zu rows, a brute-force scan finds %zu (or other rows)", eqsStr(e).c_str(), form, got.size(), want.size()));
 			c.stats.count(want.empty() ? "query.find_multi.absent" : want.size() > 192 ? "query.find_multi.gt192" : want.size() > 64 ? "query.find_multi.gt64" : "query.find_multi.present");
+			c.stats.count(fmt("query.find_multi.form%d", form));
 		}
 	}
 	template<typename T2> std::vector<std::vector<int>> tuplesOf(const T2& t2, const std::vector<int>& cols) {
 		std::vector<std::vector<int>> out;
 		for (auto r : t2) { std::vector<int> tup; for (int cc : cols) tup.push_back(cc == 0 ? (int)r[C::A()] : cc == 1 ? (int)r[C::B()] : strNo(r[C::S()])); out.push_back(tup); }
 		return out;
+	}
+	// the table returned by Project / ProjectDistinct: no index left, row numbers = positions
+	void checkProjected(const Table& r) {
+		if (r.mIndexes.mUniqueHashes.GetCount() != 0 || r.mIndexes.mMultiHashes.GetCount() != 0) fail("the table returned by Project / ProjectDistinct still has an index");
+		for (size_t i = 0; i < r.GetCount(); ++i) if (tKeep && numOf(r[i], i) != i) { fail(fmt("row %zu of a projected table reports row number %zu", i, numOf(r[i], i))); break; }
 	}
 	void queryProject() {
 		int combo = (int)rng.below(3);
@@ -897,11 +1201,36 @@ struct Runner {
 		std::vector<int> cols = combo == 0 ? std::vector<int>{ 0 } : combo == 1 ? std::vector<int>{ 0, 2 } : std::vector<int>{ 1, 0 };
 		std::vector<std::vector<int>> got;
 		const Table& ct = *tab;
-		switch (combo) {
-		case 0: { Table r = distinct ? ct.ProjectDistinct(C::makeProj(C::A()), filter, C::A()) : ct.Project(C::makeProj(C::A()), filter, C::A()); got = tuplesOf(r, cols); break; }
-		case 1: { Table r = distinct ? ct.ProjectDistinct(C::makeProj(C::A(), C::S()), filter, C::A(), C::S()) : ct.Project(C::makeProj(C::A(), C::S()), filter, C::A(), C::S()); got = tuplesOf(r, cols); break; }
-		default: { Table r = distinct ? ct.ProjectDistinct(C::makeProj(C::B(), C::A()), filter, C::B(), C::A()) : ct.Project(C::makeProj(C::B(), C::A()), filter, C::B(), C::A()); got = tuplesOf(r, cols); break; }
+		bool noFilter = p.kind == 0 && rng.chance(2, 3);	// the overloads without a row filter
+		auto call = [&]() {
+			got.clear();
+			if (noFilter) switch (combo) {
+			case 0: { Table r = distinct ? ct.ProjectDistinct(C::makeProj(C::A()), C::A()) : ct.Project(C::makeProj(C::A()), C::A()); got = tuplesOf(r, cols); checkProjected(r); break; }
+			case 1: { Table r = distinct ? ct.ProjectDistinct(C::makeProj(C::A(), C::S()), C::A(), C::S()) : ct.Project(C::makeProj(C::A(), C::S()), C::A(), C::S()); got = tuplesOf(r, cols); checkProjected(r); break; }
+			default: { Table r = distinct ? ct.ProjectDistinct(C::makeProj(C::B(), C::A()), C::B(), C::A()) : ct.Project(C::makeProj(C::B(), C::A()), C::B(), C::A()); got = tuplesOf(r, cols); checkProjected(r); break; }
+			}
+			else switch (combo) {
+			case 0: { Table r = distinct ? ct.ProjectDistinct(C::makeProj(C::A()), filter, C::A()) : ct.Project(C::makeProj(C::A()), filter, C::A()); got = tuplesOf(r, cols); checkProjected(r); break; }
+			case 1: { Table r = distinct ? ct.ProjectDistinct(C::makeProj(C::A(), C::S()), filter, C::A(), C::S()) : ct.Project(C::makeProj(C::A(), C::S()), filter, C::A(), C::S()); got = tuplesOf(r, cols); checkProjected(r); break; }
+			default: { Table r = distinct ? ct.ProjectDistinct(C::makeProj(C::B(), C::A()), filter, C::B(), C::A()) : ct.Project(C::makeProj(C::B(), C::A()), filter, C::B(), C::A()); got = tuplesOf(r, cols); checkProjected(r); break; }
+			}
+		};
+		// a projection interrupted by an allocation failure: bad_alloc, nothing left allocated (the partial result table is destroyed)
+		if (rng.chance(1, 3)) {
+			Arena& ar = arena();
+			tab->pvDeallocateFreeRaws();
+			size_t live = ar.live.size();
+			for (int att = 0; att < 3; ++att) {
+				ar.arm(att == 0 ? 0 : (long)rng.below(4 + 2 * sh.size())); bool bad = false;
+				try { call(); } catch (const std::bad_alloc&) { bad = true; }
+				ar.disarm();
+				c.stats.evaluations++;
+				if (!bad) { c.stats.count(ar.fired ? "fault.swallowed.project" : "fault.not_reached.project"); continue; }
+				c.stats.count("fault.thrown.project");
+				if (ar.live.size() != live) { fail(fmt("%s interrupted by an allocation failure left %zu blocks allocated (%zu before)", distinct ? "ProjectDistinct" : "Project", ar.live.size(), live)); ar.live.clear(); break; }
+			}
 		}
+		call();
 		++opNo; c.stats.evaluations++;
 		std::string line = fmt("proj %d", distinct ? 1 : 0); for (int cc : cols) line += fmt(" %d", cc); line += " | " + p.str();
 		uint64_t h = 0; for (auto& tup : got) { h = ck(h, 7); for (int x : tup) h = ck(h, (uint64_t)x); }
@@ -909,7 +1238,7 @@ struct Runner {
 		std::vector<std::vector<int>> want; std::set<std::vector<int>> seen;
 		for (auto& r : sh) if (p(r)) { std::vector<int> tup; for (int cc : cols) tup.push_back(r.v[cc]); if (!distinct || seen.insert(tup).second) want.push_back(tup); }
 		if (got != want) fail(fmt("%s(%s) returns %zu rows, a brute-force scan gives %zu (or other rows / another order)", distinct ? "ProjectDistinct" : "Project", line.c_str(), got.size(), want.size()));
-		c.stats.count(distinct ? "query.project_distinct" : "query.project");
+		c.stats.count(fmt("%s%s", distinct ? "query.project_distinct" : "query.project", noFilter ? ".no_filter" : ""));
 	}
 	// Sort / Group / bounds on the selection of the last `sel`
 	void querySelection() {
@@ -922,7 +1251,12 @@ struct Runner {
 		std::string colsStr; for (int cc : cols) colsStr += fmt(" %d", cc);
 		++opNo; c.stats.evaluations++;
 		if (rng.chance(1, 2)) {
-			switch (combo) { case 0: lastSel->Sort(C::B(), C::A()); break; case 1: lastSel->Sort(C::A()); break; default: lastSel->Sort(C::S(), C::B()); break; }
+			if (rng.chance(1, 4)) {	// Sort(columns...) &&
+				Selection tmp(*lastSel);
+				switch (combo) { case 0: { Selection g(std::move(tmp).Sort(C::B(), C::A())); lastSel->Swap(g); break; } case 1: { Selection g(std::move(tmp).Sort(C::A())); lastSel->Swap(g); break; } default: { Selection g(std::move(tmp).Sort(C::S(), C::B())); lastSel->Swap(g); break; } }
+				c.stats.count("query.selection.sort.rvalue");
+			}
+			else switch (combo) { case 0: lastSel->Sort(C::B(), C::A()); break; case 1: lastSel->Sort(C::A()); break; default: lastSel->Sort(C::S(), C::B()); break; }
 			std::vector<int> after = idsOf(*lastSel);
 			uint64_t h = 0; std::vector<std::vector<int>> keys;
 			for (int id : after) { auto key = keyOf(id); keys.push_back(key); h = ck(h, 7); for (int x : key) h = ck(h, (uint64_t)x); }
@@ -949,7 +1283,17 @@ struct Runner {
 				}
 			}
 		} else {
-			switch (combo) { case 0: lastSel->Group(C::B(), C::A()); break; case 1: lastSel->Group(C::A()); break; default: lastSel->Group(C::S(), C::B()); break; }
+			// 1 in 3: the allocation of the hash-code array fails (pvGroup falls back to sorting in place without it)
+			Arena& ar = arena();
+			bool starve = rng.chance(1, 3), rvalue = rng.chance(1, 4);
+			std::unique_ptr<Selection> tmp; if (rvalue) tmp.reset(new Selection(*lastSel));
+			if (starve) ar.arm(0);
+			if (rvalue) {	// Group(columns...) &&
+				switch (combo) { case 0: { Selection g(std::move(*tmp).Group(C::B(), C::A())); lastSel->Swap(g); break; } case 1: { Selection g(std::move(*tmp).Group(C::A())); lastSel->Swap(g); break; } default: { Selection g(std::move(*tmp).Group(C::S(), C::B())); lastSel->Swap(g); break; } }
+			}
+			else switch (combo) { case 0: lastSel->Group(C::B(), C::A()); break; case 1: lastSel->Group(C::A()); break; default: lastSel->Group(C::S(), C::B()); break; }
+			ar.disarm();
+			if (starve && ar.fired) c.stats.count(rvalue ? "fault.group_without_hash_array.with_copy" : "fault.group_without_hash_array");
 			std::vector<int> after = idsOf(*lastSel);
 			std::set<std::vector<int>> closed; std::vector<int> cur; bool first = true; size_t runs = 0; bool ok = true;
 			for (int id : after) { auto key = keyOf(id); if (first || key != cur) { if (!first) closed.insert(cur); if (closed.count(key)) ok = false; cur = key; first = false; ++runs; } }
@@ -960,6 +1304,149 @@ struct Runner {
 			c.stats.count("query.selection.group");
 		}
 	}
+
+	// the remaining entry points of DataSelection, on copies of the selection of the last `sel` (which stays as the model knows it);
+	// the oracle of each is the same operation on the list of row ids (property level only: the model has no selection objects)
+	template<typename SelT> bool selIs(const SelT& sel, const std::vector<int>& ids, const char* what) {
+		std::vector<int> got = idsOf(sel);
+		if (got == ids && sel.GetCount() == ids.size() && sel.IsEmpty() == ids.empty()) return true;
+		fail(fmt("Selection %s: %zu rows (%s), the same operation on the list of row ids gives %zu rows (%s)", what, got.size(), listSum(got).c_str(), ids.size(), listSum(ids).c_str()));
+		return false;
+	}
+	void querySelectionOps() {
+		if (!haveSel) return;
+		const std::vector<int> base = idsOf(*lastSel);
+		std::map<int, const RV*> byId; for (auto& r : sh) byId[r.id] = &r;
+		auto* self = this;
+		Pred p = genPred();
+		auto filter = [p, self](CRef r) { return p(self->rvOf(r)); };
+		auto pid = [&](int id) { return p(*byId[id]); };
+		++opNo; c.stats.evaluations++;
+		int what = (int)rng.below(12);
+		c.stats.count(fmt("query.selection.op%d", what));
+		switch (what) {
+		case 0: {	// Reverse & / &&
+			Selection w(*lastSel); std::vector<int> ids = base; std::reverse(ids.begin(), ids.end());
+			if (rng.chance(1, 2)) { w.Reverse(); selIs(w, ids, "Reverse()"); }
+			else { Selection w2(std::move(w).Reverse()); selIs(w2, ids, "Reverse() &&"); }
+			break; }
+		case 1: {	// Sort(lessFunc) & / && with a total order (d descending, then row id), BinarySearch(predicate)
+			Selection w(*lastSel); std::vector<int> ids = base;
+			auto keyOf = [&](int id) { return std::make_pair(-byId[id]->v[3], id); };
+			std::sort(ids.begin(), ids.end(), [&](int x, int y) { return keyOf(x) < keyOf(y); });
+			auto less = [](CRef r1, CRef r2) { int d1 = r1[C::D()], d2 = r2[C::D()]; return d1 != d2 ? d1 > d2 : (int)r1[C::K()] < (int)r2[C::K()]; };
+			if (rng.chance(1, 2)) w.Sort(less); else { Selection w2(std::move(w).Sort(less)); w.Swap(w2); }
+			if (!selIs(w, ids, "Sort(lessFunc)")) break;
+			for (int rep = 0; rep < 3; ++rep) {
+				int dv = (int)rng.below(6) - 1;
+				size_t got = w.BinarySearch([dv](CRef r) { return (int)r[C::D()] < dv; });	// first row (in this order) whose d is below dv
+				size_t want = 0; for (int id : ids) if (!(byId[id]->v[3] < dv)) ++want;
+				if (got != want) fail(fmt("Selection::BinarySearch(d < %d) on %zu rows sorted by d descending = %zu, a linear scan gives %zu", dv, ids.size(), got, want));
+			}
+			break; }
+		case 2: {	// filtered copy
+			Selection w(*lastSel, filter); std::vector<int> ids; for (int id : base) if (pid(id)) ids.push_back(id);
+			selIs(w, ids, ("filtered copy (" + p.str() + ")").c_str());
+			break; }
+		case 3: {	// Remove(filter)
+			Selection w(*lastSel); std::vector<int> ids; for (int id : base) if (!pid(id)) ids.push_back(id);
+			size_t removed = w.Remove(filter);
+			if (removed != base.size() - ids.size()) fail(fmt("Selection::Remove(%s) reported %zu rows, a scan finds %zu", p.str().c_str(), removed, base.size() - ids.size()));
+			selIs(w, ids, ("Remove(" + p.str() + ")").c_str());
+			break; }
+		case 4: {	// copy / move assignment, Swap, Clear, Reserve
+			Selection w(tab->SelectEmpty()); selIs(w, {}, "SelectEmpty()");
+			Selection part(*lastSel, filter); std::vector<int> pids; for (int id : base) if (pid(id)) pids.push_back(id);
+			w = *lastSel; selIs(w, base, "copy assignment");
+			w = static_cast<const Selection&>(w); selIs(w, base, "self assignment");
+			Selection w2(tab->SelectEmpty()); w2 = std::move(w); selIs(w2, base, "move assignment");
+			w2.Swap(part); selIs(w2, pids, "Swap (left)"); selIs(part, base, "Swap (right)");
+			swap(w2, part); selIs(part, pids, "swap (right)");
+			part.Reserve(pids.size() + 10); selIs(part, pids, "Reserve");
+			part.Clear(); selIs(part, {}, "Clear");
+			const Table& ct = *tab; ConstSelection ce = ct.SelectEmpty(); selIs(ce, {}, "SelectEmpty() const");
+			break; }
+		case 5: {	// Assign(begin, end), Add(begin, end), Insert(index, begin, end) with the rows of another selection
+			Selection other(*lastSel, filter); std::vector<int> oids; for (int id : base) if (pid(id)) oids.push_back(id);
+			Selection w(*lastSel);
+			w.Add(other.GetBegin(), other.GetEnd()); std::vector<int> ids = base; ids.insert(ids.end(), oids.begin(), oids.end()); selIs(w, ids, "Add(begin, end)");
+			size_t at = (size_t)rng.below(ids.size() + 1);
+			w.Insert(at, other.GetBegin(), other.GetEnd()); ids.insert(ids.begin() + (ptrdiff_t)at, oids.begin(), oids.end()); selIs(w, ids, "Insert(index, begin, end)");
+			w.Assign(other.GetBegin(), other.GetEnd()); selIs(w, oids, "Assign(begin, end)");
+			Selection e2(tab->SelectEmpty()); e2.Assign(tab->GetBegin(), tab->GetEnd());
+			std::vector<int> all; for (auto& r : sh) all.push_back(r.id); selIs(e2, all, "Assign(table.GetBegin(), table.GetEnd())");
+			break; }
+		case 6: {	// GetColumnItems of a selection: DataConstItemBounds / DataConstItemIterator
+			auto items = lastSel->GetColumnItems(C::B());
+			bool ok = items.GetCount() == base.size();
+			size_t i = 0;
+			for (auto it = items.GetBegin(); ok && it != items.GetEnd(); ++it, ++i) if (*it != byId[base[i]]->v[1] || items[i] != *it || it.GetOffset() != tab->GetColumnList().GetOffset(C::B())) ok = false;
+			if (ok && !base.empty()) {
+				auto b = items.GetBegin(), e2 = items.GetEnd();
+				size_t j = (size_t)rng.below(base.size());
+				auto it = b; it += (ptrdiff_t)j;
+				if (e2 - b != (ptrdiff_t)base.size() || !(b < e2) || (e2 < b) || *it != byId[base[j]]->v[1] || it - b != (ptrdiff_t)j || !(it == b + (ptrdiff_t)j) || (int)(*it.GetRowIterator())[C::K()] != base[j]) ok = false;
+				auto si = items.GetBegin(); std::string s0 = *lastSel->GetColumnItems(C::S()).GetBegin();
+				if (strNo(s0) != byId[base[0]]->v[2] || lastSel->GetColumnItems(C::S()).GetBegin()->size() != s0.size()) ok = false;
+				(void)si;
+			}
+			if (!ok) fail(fmt("Selection::GetColumnItems(b) over %zu rows does not list the items of column b of these rows", base.size()));
+			break; }
+		case 7: {	// GetColumnItems of the table
+			const Table& ct = *tab;
+			auto items = ct.GetColumnItems(C::A());
+			bool ok = items.GetCount() == sh.size(); size_t i = 0;
+			for (int a : items) { if (i >= sh.size() || a != sh[i].v[0]) { ok = false; break; } ++i; }
+			if (!ok || i != sh.size()) fail("DataTable::GetColumnItems(a) does not list the items of column a in row order");
+			if (ct.ContainsColumn(C::A()) != true || ct.ContainsColumn(C::K()) != true || ct.IsEmpty() != sh.empty()) fail("ContainsColumn / IsEmpty answer wrongly");
+			defaultTable(std::integral_constant<bool, tDyn>());
+			break; }
+		case 8: {	// iterator arithmetic of the selection and the table
+			auto b = lastSel->GetBegin(), e2 = lastSel->GetEnd();
+			bool ok = (e2 - b == (ptrdiff_t)base.size()) && !(e2 < b) && (base.empty() ? b == e2 : b < e2);
+			if (!base.empty()) { size_t j = (size_t)rng.below(base.size()); auto it = b + (ptrdiff_t)j; if ((int)(*it)[C::K()] != base[j] || (int)it->Get(C::K()) != base[j] || it - b != (ptrdiff_t)j || (int)b[(ptrdiff_t)j][C::K()] != base[j]) ok = false; }
+			auto tb = tab->GetBegin(), te = tab->GetEnd();
+			if (te - tb != (ptrdiff_t)sh.size() || (te < tb)) ok = false;
+			if (!sh.empty()) { size_t j = (size_t)rng.below(sh.size()); if ((int)tb[(ptrdiff_t)j][C::K()] != sh[j].id) ok = false; typename Table::ConstIterator cit = tb; if (!(cit == ct_begin())) ok = false; }
+			if (!ok) fail("iterator arithmetic on a selection / the table disagrees with positions in the list of rows");
+			break; }
+		case 9: case 10: {	// DataTable(const Selection&) / DataTable(const ConstSelection&): the rows of the selection, in its order, no index
+			if (lastSel->GetCount() > 120 && !rng.chance(1, 4)) break;
+			int via = what == 9 ? 1 : 2;
+			if (rng.chance(1, 2)) copyFaults(nullptr, via);
+			std::unique_ptr<Table> t2;
+			if (via == 1) t2.reset(new Table(*lastSel)); else { ConstSelection cs = *lastSel; t2.reset(new Table(cs)); }
+			bool ok = t2->GetCount() == base.size() && t2->mIndexes.mUniqueHashes.GetCount() == 0 && t2->mIndexes.mMultiHashes.GetCount() == 0;
+			for (size_t i = 0; ok && i < base.size(); ++i) { RV x = rvOf((*t2)[i]); if (!sameRV(x, *byId[base[i]]) || (tKeep && numOf((*t2)[i], i) != i) || (*t2)[i].GetRaw() == (*lastSel)[i].GetRaw()) ok = false; }
+			if (!ok) fail(fmt("DataTable(%s of %zu rows) does not hold copies of exactly these rows in this order", via == 1 ? "Selection" : "ConstSelection", base.size()));
+			IdxDump d = dumpIdx(); checkState(d);
+			break; }
+		default: {	// conversion of an rvalue selection, copy of a ConstSelection, Sort / bounds on a ConstSelection
+			Selection w(*lastSel);
+			ConstSelection cs(std::move(w)); selIs(cs, base, "operator ConstSelection() &&");
+			ConstSelection cs2(cs); cs2.Sort(C::A()); std::vector<int> ks; for (auto r : cs2) ks.push_back((int)r[C::A()]);
+			std::vector<int> ws; for (int id : base) ws.push_back(byId[id]->v[0]); std::sort(ws.begin(), ws.end());
+			if (ks != ws) fail("ConstSelection::Sort(a) does not sort by column a");
+			int av = (int)rng.below((uint64_t)aRange + 1);
+			size_t lb = cs2.GetLowerBound(typename Table::template Equality<int>(C::A(), av)), ub = cs2.GetUpperBound(typename Table::template Equality<int>(C::A(), av));
+			size_t wl = 0, wu = 0; for (int a : ws) { if (a < av) ++wl; if (a <= av) ++wu; }
+			if (lb != wl || ub != wu) fail(fmt("ConstSelection bounds (a == %d) = %zu/%zu, a linear scan gives %zu/%zu", av, lb, ub, wl, wu));
+			break; }
+		}
+	}
+	// DataTable() (static column lists only): an empty table of the same columns that takes a copy of a row of this one
+	void defaultTable(std::true_type) {}
+	void defaultTable(std::false_type) {
+		Table t0;
+		bool ok = t0.GetCount() == 0 && t0.IsEmpty() && t0.Select().GetCount() == 0;
+		if (ok && !sh.empty()) {
+			size_t n = (size_t)rng.below(sh.size());
+			t0.Add(t0.NewRow((*tab)[n]));
+			ok = t0.GetCount() == 1 && sameRV(rvOf(t0[0]), sh[n]);
+		}
+		if (!ok) fail("a default-constructed DataTable is not an empty table that accepts a copy of a row");
+	}
+	typename Table::ConstIterator ct_begin() const { const Table& ct = *tab; return ct.GetBegin(); }
 
 	// ------------------------------------------------ generation
 	RV genRow() {
@@ -1011,22 +1498,24 @@ struct Runner {
 			else if (r < 22) opAdd(sweep, rng.chance(1, 10));
 			else if (r < 30) opInsert(sweep);
 			else if (r < 40) opUpdRow(sweep);
-			else if (r < 58) opUpdCol(sweep);
+			else if (r < 56) opUpdCol(sweep);
+			else if (r < 58) opSetMutable();
 			else if (r < 72) opRemove();
 			else if (r < 76) opReadd();
 			else if (r < 82) opRemoveRows();
 			else if (r < 86) opRemovePred();
 			else if (r < 90) opAssign();
 			else if (r < 91) { if (rng.chance(1, 3)) opClear(); }
-			else if (r < 94) { if (rng.chance(1, 3)) { Pred p = genPred(); rebuild(p.str(), &p); } else rebuild("T"); }
+			else if (r < 94) { if (rng.chance(1, 3)) { Pred p = genPred(); rebuild(p.str(), &p, true); } else rebuild("T", nullptr, true); }
 			else if (r < 95) { bool u = rng.chance(1, 2); std::vector<int> defs = u ? uDefs : mDefs; dropIdx(u); for (int k : defs) later.push_back({ st + 1 + (size_t)rng.below(10), k }); }
 			else opAdd(sweep, false);
 			haveSel = false; lastSel.reset();
 			emitChk(rng.chance(1, heavy ? 40 : 10));
 			size_t nq = heavy ? 2 : 3;
 			for (size_t q = 0; q < nq; ++q) {
-				unsigned qr = (unsigned)rng.below(10);
-				if (qr < 5) querySelect(); else if (qr < 8) queryFind(); else if (qr < 9) queryProject(); else { querySelect(); querySelection(); }
+				unsigned qr = (unsigned)rng.below(14);
+				if (qr < 5) querySelect(); else if (qr < 8) queryFind(); else if (qr < 9) queryProject(); else if (qr < 10) { querySelect(); querySelection(); }
+				else if (qr < 12) { querySelect(); querySelectionOps(); querySelectionOps(); } else if (qr < 13) queryIndexOf(); else queryFind();
 			}
 			if (sh.size() < bulk / 2) refill(bulk * 3 / 4);
 		}
@@ -1078,6 +1567,63 @@ void Runner<tDyn, tKeep, tMaxEq>::dispatchEqs(const Eqs& e, F&& f)
 	#undef ES
 	#undef ED
 }
+
+// the same lists handed over as separate Equality<Item> arguments (f receives one maker per equality)
+#define VF_VAR_PROLOGUE \
+	int code = 0; for (auto& p : e) code = code * 5 + p.first + 1; \
+	std::string sv; for (auto& p : e) if (p.first == 2) sv = strOf(p.second); \
+	int v[4] = { 0, 0, 0, 0 }; for (size_t i = 0; i < e.size() && i < 4; ++i) v[i] = e[i].second; \
+	const std::string& svr = sv; \
+	typedef typename Table::template Equality<int> EqI; typedef typename Table::template Equality<std::string> EqS;
+#define QA(i) [&]() { return EqI(C::A(), v[i]); }
+#define QB(i) [&]() { return EqI(C::B(), v[i]); }
+#define QS(i) [&]() { return EqS(C::S(), svr); }
+#define QD(i) [&]() { return EqI(C::D(), v[i]); }
+template<bool tDyn, bool tKeep, size_t tMaxEq>
+template<typename F>
+void Runner<tDyn, tKeep, tMaxEq>::dispatchVar(const Eqs& e, F&& f)
+{
+	VF_VAR_PROLOGUE
+	switch (code) {
+	case 1: f(QA(0)); break;
+	case 2: f(QB(0)); break;
+	case 3: f(QS(0)); break;
+	case 4: f(QD(0)); break;
+	case 1 * 5 + 2: f(QA(0), QB(1)); break;
+	case 2 * 5 + 1: f(QB(0), QA(1)); break;
+	case 3 * 5 + 1: f(QS(0), QA(1)); break;
+	case 1 * 5 + 3: f(QA(0), QS(1)); break;
+	case 2 * 5 + 3: f(QB(0), QS(1)); break;
+	case 4 * 5 + 1: f(QD(0), QA(1)); break;
+	case (1 * 5 + 2) * 5 + 3: f(QA(0), QB(1), QS(2)); break;
+	case (3 * 5 + 2) * 5 + 1: f(QS(0), QB(1), QA(2)); break;
+	case (2 * 5 + 4) * 5 + 1: f(QB(0), QD(1), QA(2)); break;
+	case ((1 * 5 + 2) * 5 + 3) * 5 + 4: f(QA(0), QB(1), QS(2), QD(3)); break;
+	case ((4 * 5 + 3) * 5 + 2) * 5 + 1: f(QD(0), QS(1), QB(2), QA(3)); break;
+	default: fprintf(stderr, "dispatchVar: unsupported column sequence %d\n", code); exit(3);
+	}
+}
+template<bool tDyn, bool tKeep, size_t tMaxEq>
+template<typename F>
+void Runner<tDyn, tKeep, tMaxEq>::dispatchVarIdx(const Eqs& e, F&& f)
+{
+	VF_VAR_PROLOGUE
+	switch (code) {
+	case 1: f(QA(0)); break;
+	case 2: f(QB(0)); break;
+	case 4: f(QD(0)); break;
+	case 1 * 5 + 2: f(QA(0), QB(1)); break;
+	case 2 * 5 + 1: f(QB(0), QA(1)); break;
+	case 3 * 5 + 1: f(QS(0), QA(1)); break;
+	case 1 * 5 + 3: f(QA(0), QS(1)); break;
+	default: fprintf(stderr, "dispatchVarIdx: unsupported column sequence %d\n", code); exit(3);
+	}
+}
+#undef QA
+#undef QB
+#undef QS
+#undef QD
+#undef VF_VAR_PROLOGUE
 
 template<bool tDyn, bool tKeep, size_t tMaxEq>
 static void runAll(Ctx& c, Rng& rng, const char* name)
